@@ -74,18 +74,23 @@ CHECKS = {
     "C18": ("Theorems (Properties_C18.v; index theorems axiom-free, positions over reals): Cartesian grids have (nx+1)(ny+1)(nz+1) "
             "nodes and nx*ny*nz cells; the node stored at the linear index is lattice node (i,j,k); every cell lists the 4/8 "
             "corners of its lattice cell and references existing nodes only; first/last node on the box faces, Depth = top - z; "
-            "the tag filter keeps exactly the selected cells with offsets nvert, 2 nvert, ... Not a theorem: XML writing (vtu11), "
-            "chunk/annulus/sphere layouts (checked by parsing and by the Depth/radius relation). Tie: connectivity of the binary's "
-            "VTU vs the extracted model; node values vs the library through wbprobe at the recomputed positions.",
+            "the tag filter keeps exactly the selected cells with offsets nvert, 2 nvert, ...; 2-D chunks (node order, corners) and the "
+            "annulus (corners with the ring wrap, the ring closes, angular positions, Depth = outer radius - radius); 3-D chunks use "
+            "the box numbering. Not a theorem: XML writing (vtu11; all five write modes are decoded and compared with the ASCII "
+            "file), the sphere layout (checked by parsing and by the Depth/radius relation). Tie: connectivity of the binary's VTU "
+            "vs the extracted model for boxes, chunks and the annulus; node values vs the library through wbprobe at the recomputed "
+            "positions.",
             "proof (lia/nia index theorems) + binary-vs-model connectivity correspondence + node-value oracle", "4 C18"),
     "C15": ("Theorems (Properties_C15.v): [S, axiom-free] every random grains block consumes exactly 3k (+k for random sizes) draws "
             "and every random composition one draw, blocks keep their announced length, equal worlds and equal histories give "
             "equal tape positions and answers; [R] the Arvo matrix (deflection included) satisfies M M^T = I and det M = +1 for "
-            "all draws (nsatz), normalised sizes sum to one, a + u(b-a) lies in [a,b]. Not modelled: std::mt19937 / "
-            "uniform_real_distribution (the tape of draws for a seed is produced by the harness with the same engine). Tie: the "
-            "model fed that tape reproduces every answer of long query sequences bit for bit; oracle: twin/other-seed worlds, "
-            "orthonormality, sums, bounds.",
-            "proof (draw bookkeeping by induction, Arvo by nsatz over Reals) + bit-exact correspondence on the mt19937 tape + twin-world oracle", "4 C15"),
+            "all draws (nsatz), normalised sizes sum to one, a + u(b-a) lies in [a,b]; the engine (Mt19937.v models std::mt19937 and "
+            "libstdc++'s generate_canonical<double,53>): every output is a 32-bit number, every step reads three real entries of a "
+            "624-entry window, the number handed to a model lies in [0,1) over the reals, the published reference outputs are "
+            "checked in-kernel. Tie: the model draws from its own engine and reproduces every answer of long query sequences bit "
+            "for bit; the engine streams are compared draw by draw with std::mt19937 for every seed used; oracle: twin/other-seed "
+            "worlds, orthonormality, sums, bounds. 'Different seeds give different draws' for all seeds is not a theorem (searched).",
+            "proof (draw bookkeeping by induction, Arvo by nsatz over Reals, engine range by bit lemmas) + bit-exact correspondence with the model's own mt19937 + twin-world oracle", "4 C15"),
     "C05": ("Theorems (Properties_C05.v): [S] a model returns the old value outside its own range and apply_operation(op, old, "
             "closed form) inside it, with the sentinel rule 'negative = adiabatic/global value' visible in the dispatch; [R] the "
             "closed forms are the documented expressions (linear between the local top and bottom, Chapman, adiabat, half-space "
@@ -96,8 +101,11 @@ CHECKS = {
     "C20": ("Theorems (Properties_C20.v, over reals, erfc laws as premises): half-space cooling lies between top and bottom "
             "temperature, equals the top temperature at depth 0, is non-decreasing in depth and non-increasing in age; linear "
             "models attain their boundary temperatures and stay between them; the plate-model series vanishes at depth 0 and max "
-            "depth (boundary temperatures attained). Not proved: two-sided bounds of the truncated series (known finding D15 for "
-            "kappa*age/max_depth^2 < 1e-3), the mass-conserving slab envelope. Tie: bit-exact correspondence of the cooling models; "
+            "depth (boundary temperatures attained); mass conserving slab (half-space reference): on and below the slab top the "
+            "temperature lies between the model's minimum temperature and the background, and equals the minimum temperature on the "
+            "slab top; the McKenzie series of the slab plate model vanishes on both slab surfaces. Not proved: two-sided bounds of "
+            "the truncated series (known finding D15 for kappa*age/max_depth^2 < 1e-3), the heat anomaly above the slab top and the "
+            "plate reference of the mass-conserving model (searched). Tie: bit-exact correspondence of the cooling models; "
             "oracle: depth and age ladders on the implementation.",
             "proof of envelopes over Reals (erfc laws as premises) + bit-exact correspondence + ladder oracle", "4 C20"),
     "C06": ("Theorems (Properties_C06.v, over exact reals; atan2 polar law as premise): the executable specification "
@@ -113,8 +121,10 @@ CHECKS = {
             "proof over Reals (specification = elementary construction; model refines it on straight pieces) + bit-exact model correspondence + spec-vs-implementation comparison + membership oracle", "4 C06 / 9.3"),
     "C07": ("Theorems (Properties_C07.v, over exact reals): inside a triangle the interpolated depth lies between the extreme nodal "
             "values, so the global min/max pre-test never rejects what the local test accepts; the pruned kd search returns a true "
-            "nearest centroid; the slab/fault depth cut-off (min depth + total length + thickness) is sufficient for chains of "
-            "straight pieces. Not a theorem: arcs, the surface bounding box, spherical worlds (decided by the hook oracle). "
+            "nearest centroid; for every chain the planar specification can walk - straight pieces and circular arcs - a member lies no "
+            "deeper than min depth + total length + |distance| and horizontally within total length + |distance| of the trench "
+            "(depth cut-off and box buffer with max(thickness, -top truncation)); the trench curve lies in the box of its coordinates "
+            "and control points. Not a theorem: the 3-D frame around curved trenches, spherical boxes (decided by the hook oracle). "
             "Tie/search: every world built twice in one process, culling as computed vs switched off by the "
             "GWB_VERIF hook, bit-identical answers required around and below the feature.",
             "proof over Reals for the surface pre-test and kd search + culling on/off oracle through the GWB_VERIF hook", "4 C07"),
@@ -148,16 +158,18 @@ CHECKS = {
             "tip, plume axis, depth 0, poles, +-180 meridian with +-0.0, planet centre, model bottom, far away) on generated "
             "worlds of every feature type, finite-or-exception and no dead/hanging process; thorough tier under ASan+UBSan.",
             "proof of totality and finiteness-preservation of the slot machinery + degenerate-location search (sanitizers in the thorough tier)", "4 C13"),
-    "C12": ("Partial. Theorems (Properties_C12.v, axiom-free, every number interpretation): once the five plume tables have the "
-            "same non-zero length - what the constructor has to enforce by throwing - every table read of the cross-section "
-            "lookup is inside its table for every depth (the totalised nth of the model never returns its default). Not a "
+    "C12": ("Partial. Theorems (Properties_C12.v, axiom-free, every number interpretation): Validate.v models the length checks "
+            "of all constructors as one verdict doc_ok over the length signature of a document; accepted lengths imply that the "
+            "plume, grains (uniform / random / deflected), fraction and spreading-velocity reads of the evaluator are inside their "
+            "tables (the totalised nth of the model never returns its default) and that the segment table of a slab or fault is "
+            "rectangular. Tie: the model's verdict vs the constructor's on every unchanged and length-damaged document. Not a "
             "theorem and not expressible in an executable model: crash freedom of rapidjson parsing, schema validation and "
             "object construction on arbitrary bytes. Decided by the search: byte-damaged, structurally damaged, "
             "length-inconsistent and re-formatted documents derived from generated worlds of every feature type; outcomes "
             "success / std::exception with a message only, schema-invalid (python jsonschema on the published schema) and "
             "length-inconsistent documents must be rejected, formatting variants must answer bit-identically; thorough tier "
             "under ASan+UBSan.",
-            "proof of in-bounds table reads under the enforced length checks + damaged-document search (sanitizers in the thorough tier)", "4 C12"),
+            "proof of in-bounds table reads under the modelled length checks + verdict correspondence + damaged-document search (sanitizers in the thorough tier)", "4 C12"),
 }
 
 NOT_YET = {
